@@ -1275,3 +1275,15 @@ MocloModels.comprehension = _comprehension_sym
 
 
 m_seqio_read = m_seqio_read2      # the tables built by _external look the name up when they are built
+
+
+_prev_class_cell_ovr = MocloModels.class_cell
+
+
+def _class_cell_ovr(self, ex, st, cls, attr):
+    if attr in getattr(cls, "attrs_override", {}):      # a class attribute fixed by the contract under verification
+        return [(st, "ok", cls.attrs_override[attr])]
+    return _prev_class_cell_ovr(self, ex, st, cls, attr)
+
+
+MocloModels.class_cell = _class_cell_ovr
